@@ -46,15 +46,9 @@ for arch, vdef in (("avx2", "VEC_LEN=32"), ("sse", "VEC_LEN=16")):
         id="C05.StringBlock@" + arch, src="c05_string.c", harness="h_StringBlock", units=sbu, defs=[vdef], arch=arch, route="L", function="StringBlock::Find + predicates",
         unwind=34, replay="stringblock", timeout=900,
         claims="all VEC_LEN-byte blocks: the three masks equal the per-byte predicates (backslash, quote, < 0x20); HasQuoteFirst/HasBackslash/HasUnescaped/QuoteIndex/BsIndex describe the first special byte; reads exactly VEC_LEN bytes"))
-    VL = 32 if arch == "avx2" else 16
-    for nmax in (8,):
-        PROPS["C05"]["jobs"].append(dict(
-            id="C05.parseStringInplace@" + arch, src="c05_string.c", harness="h_parseStringInplace", units=sbu, defs=[vdef, "NMAX=%d" % nmax], arch=arch,
-            thorough_only=True,
-            route="B(raw length<=%d)" % nmax, bound="raw literal length <= %d" % nmax, function="parseStringInplace", unwind=nmax + VL + 14, object_bits=14, replay="parsestring", timeout=1500,
-            cbmc_unwindset="parseStringInplace.0:%d,parseStringInplace.1:%d,parseStringInplace.2:%d,parseStringInplace.3:%d,parseStringInplace.4:%d,parseStringInplace.5:%d,parseStringInplace.6:2" % (
-                nmax // VL + 3, nmax // 2 + 2, VL // 8 + 2, nmax // VL + 3, VL // 8 + 2, nmax // 2 + 2),
-            claims="bounded: for every literal content up to the bound (hence every offset of every special byte relative to the vector blocks): accepted iff RFC 8259 accepts; decoded bytes, length and source advance equal the scalar oracle; rejected literals yield one of the three string-fault codes; reads stay inside literal + VEC_LEN + 12 bytes"))
+    # parseStringInplace (h_parseStringInplace in specs/c05_string.c): bounded jobs at raw length 8, VEC_LEN+4 and VEC_LEN+8 did not
+    # finish within 15-25 min; no job runs it (DESIGN section 12).
+
 
 
 # ===================================================================================== C11
@@ -173,6 +167,9 @@ C14_JOBS = [
          function="sse::InlinedMemcmpEq / sse::InlinedMemcmp", replace=["memcmp"],
          claims="the sse bodies are memcmp(a,b,s)==0 and memcmp(l,r,s) on exactly s bytes (libc memcmp trusted, uninterpreted)"),
 ]
+C14_JOBS.append(dict(id="C14.DNode.Less", src="c14_memcmp.c", harness="h_Less", units=C14_UNITS + ["DNode.Less"], defs=["VEC_LEN=32", "UNIT_Less"], arch="avx2", route="L",
+    function="DNode::Less::operator() (static dispatch)", timeout=600, replay="less",
+    claims="all key lengths: against InlinedMemcmp's contract (sign of memcmp over min(n1,n2) bytes) the comparator is asymmetric and two keys are equivalent exactly when they have the same length and bytes; compares exactly min(n1,n2) bytes"))
 PROPS["C14"] = dict(level="other", jobs=C14_JOBS, trusted_base=COMMON_TRUST + MODEL_TRUST, assumptions=[], undecided=[], explanation="")
 
 
@@ -186,16 +183,9 @@ for arch, vdef in ARCHS:
         return d
     C09_JOBS.append(c09("CopyAndGetEscapMask", "h_CopyAndGetEscapMask", function="CopyAndGetEscapMask", enforce="CopyAndGetEscapMask",
         claims="all VEC_LEN-byte blocks: copies exactly VEC_LEN bytes; mask bit i iff byte i is a quote, backslash or < 0x20; reads/writes exactly VEC_LEN bytes"))
-    VL = 32 if arch == "avx2" else 16
-    for path, xd in (("production", []), ("sanitize", ["SANITIZE_PATH"])):
-        C09_JOBS.append(c09("Quote.contract.%s" % path, "h_Quote", function="Quote (%s path)" % path, xdefs=xd + ["CONTRACT_ONLY_DoEscape", "QBOUND=%d" % (2 * VL + 8)],
-            route="B(nb<=2*VEC_LEN+8)", bound="nb <= %d" % (2 * VL + 8), enforce="Quote", replace=["DoEscape", "memcpy", "CopyAndGetEscapMask"],
-            unwind=2 * VL + 10, replay="quote", thorough_only=True, object_bits=16,
-            claims="bounded (loops unwound, function contract enforced by DFCC, callees by contract): " + ("string at any offset of a whole-page object, ending up to its last byte" if not xd else "source heap block of exactly nb bytes") +
-                   ": no read outside the source object, writes only inside the 6*nb+35 reservation, result length in [nb+2, 6*nb+2], delimited by quotes; DoEscape / CopyAndGetEscapMask preconditions hold at every call site"))
-        C09_JOBS.append(c09("Quote.exact.%s" % path, "h_Quote_exact", function="Quote (%s path)" % path, xdefs=xd, route="B(nb<=2*VEC_LEN+8)", bound="nb <= %d" % (2 * VL + 8),
-            unwind=2 * VL + 10, replay="quote", thorough_only=True, object_bits=16,
-            claims="bounded (real callees inlined): output bytes and length equal the RFC 8259 quoting of exactly the nb source bytes, for every content, every length up to two blocks + 8, every page offset; bytes behind the string unconstrained"))
+    # Quote itself: three routes were built and none finished within 30 min / 60 GB on this machine (DESIGN section 12): DFCC loop
+    # contracts with pointer re-basing, DFCC function contract with unwound loops (nb <= 2*VEC_LEN+8), and plain CBMC against callee
+    # contract stubs (nb <= VEC_LEN+8). The harnesses stay in specs/c09_quote.c (h_Quote, h_Quote_exact, h_Quote_stubs); no job runs them.
 C09_JOBS.append(dict(id="C09.tables", src="c09_quote.c", harness="h_quote_tables", units=C09_JOBS[0]["units"], defs=["VEC_LEN=32"], arch="avx2", route="L", function="kQuoteTab / kNeedEscaped",
     replay="quotetab", claims="all 256 bytes: need-escape flag, escape length (0/2/6) and escape text equal RFC 8259 section 7; the 8 bytes DoEscape copies are readable"))
 C09_JOBS.append(dict(id="C09.DoEscape", src="c09_quote.c", harness="h_DoEscape", units=C09_JOBS[0]["units"], defs=["VEC_LEN=32"], arch="avx2", route="U", function="DoEscape",
@@ -304,7 +294,7 @@ for nb, shape, tho in ((12, None, False), (30, "SHAPE_ZEROS", False), (27, "SHAP
     C04_JOBS.append(dict(id="C04.parseNumber.nb%d%s" % (nb, "." + shape[6:].lower() if shape else ""), src="c04_number.c", harness="h_parseNumber", units=C04_UNITS, defs=["NB=%d" % nb] + ([shape] if shape else []), arch="-",
         route="B(len<=%d%s)" % (nb, ", " + shape[6:].lower() + " shape" if shape else ""),
         bound="number text of at most %d bytes%s" % (nb, {None: "", "SHAPE_ZEROS": ", of the shape [-]0.00...0 + 3 arbitrary bytes", "SHAPE_LONGINT": ", of the shape [-]ddd...d (>= 22 digits) + 3 arbitrary bytes"}[shape]),
-        thorough_only=tho, function="Parser::parseNumber (+str2int, carry_one, parseFloatingFast)", unwind=max(nb + 3, 18), object_bits=12, timeout=1500 if nb > 12 else 900, flags=["--slice-formula"], solver="cadical",
+        thorough_only=tho, function="Parser::parseNumber (+str2int, carry_one, parseFloatingFast)", unwind=max(nb + 3, 18), object_bits=12, timeout=3000 if nb > 12 and not shape else 900, flags=["--slice-formula"], solver="cadical",
         replay="parsenumber",
         claims="bounded: accepts exactly the RFC 8259 number grammar and stops on the first byte that cannot continue it; integers within uint64 / int64 are delivered exactly with the right kind, others as Double; signed zero; the float converters are reached only with a non-zero mantissa and in-range table indices; a dropped non-zero digit is always reported (trunc) and never reaches the exact-mantissa path"))
 C04_JOBS.append(dict(id="C04.parseFloatingFast", src="c04_number.c", harness="h_parseFloatingFast", units=C04_UNITS, defs=["UNIT_parseFloatingFast"], arch="-", route="L",
@@ -333,3 +323,17 @@ PROPS["C15"] = dict(level="other", jobs=C15_JOBS, trusted_base=COMMON_TRUST + MO
     native=[dict(id="ifunc_forwarders", kind="script", src="tools/ifunc_check.py",
                  obligation="C15.dispatch: every target(SONIC_WESTMERE/SONIC_HASWELL) wrapper in x86_ifuncs/*.h is `return <sse|avx2>::<same name>(<its parameters in order>);`")],
     assumptions=[], undecided=[], explanation="")
+
+
+# ===================================================================================== model validation (supporting native steps)
+MODEL_STEPS = [
+    dict(id="validate_models", kind="validate", src="specs/native/validate_models.cpp", cflags=["-mavx2", "-mpclmul", "-mbmi", "-mbmi2", "-mlzcnt"], n_quick=100000, n_thorough=5000000, timeout=1800),
+    dict(id="validate_wrap_avx2", kind="validate", src="specs/native/validate_wrap.cpp", cflags=["-mavx2", "-mpclmul", "-mbmi", "-mbmi2", "-mlzcnt", "-DVEC_LEN=32"], n_quick=100000, n_thorough=5000000, timeout=1800),
+    dict(id="validate_wrap_sse", kind="validate", src="specs/native/validate_wrap.cpp", cflags=["-march=westmere", "-mpclmul", "-DVEC_LEN=16"], n_quick=100000, n_thorough=5000000, timeout=1800),
+]
+for _p in ("C05", "C09", "C11", "C14", "C15", "C08"):
+    PROPS[_p]["native"] = PROPS[_p].get("native", []) + MODEL_STEPS
+MODEL_TRUST[:] = [
+    "models/intrin.h: byte-lane models of the Intel intrinsics (compared with the CPU on sampled and edge-case vectors every run: native steps validate_models)",
+    "models/simdwrap.h: models of the sonic simd.h wrapper idioms (compared with the real simd256/simd128/simd8x64 classes on sampled vectors every run: native steps validate_wrap_*)",
+]
